@@ -282,7 +282,8 @@ def _slot_map(ctx, R="C02.D1"):
                   bad="a slot range can be left out of the slot map (way round the loop with head bb%s): its slots are routed as `not covered` / elsewhere" % [h for h, _ in sk],
                   path=str(cfg.lines_of_path(b, sk[0][1])) if sk else None)
         n_loops = len({h for _, h in cfg.natural_loops(b)})
-        ctx.check(n_loops == 3, R, "slot-map:loop-nest", site(b), ok="nodes x slot ranges x ranges", bad="expected 3 nested loops, found %d" % n_loops)
+        # the loop count is a fact about the spelling (a flat_map would have fewer), not about the property: information only
+        ctx.info(R, "slot-map:loop-nest", "%d loops over nodes / slot ranges / ranges" % n_loops)
     d = F.one("proxy::slot::SlotMapData::new")
     if d is not None:
         ctx.analysed(d)
